@@ -145,7 +145,7 @@ def obligations(tier, rng):
     for f in dfs:
         two = len(variables(f)) > 1
         timed = refsem.has(f, {'once_t', 'historically_t', 'since_t'})
-        for k in ([0, 1] if quick or (two and timed) else [0, 1, 2]):
+        for k in ([0, 1] if quick or timed else [0, 1, 2]):
             out.append(ob('C10', 'ct', 'ct/%s/k=%d' % (text(f), k), f=f, k=k, m=1 if (two or (timed and not quick)) else 2,
                           n=dn if not two else 2, max_paths=60000, wall=900))
     for f in [('once', X), ('once_t', X, 0, 1), ('since', X, Y)]:
